@@ -9,6 +9,7 @@ import (
 	"strconv"
 	"strings"
 	"sync"
+	"sync/atomic"
 	"syscall"
 	"time"
 
@@ -72,6 +73,7 @@ type Cluster struct {
 	SlotNum map[string]int    // abstract slot name -> slot number
 	// TopoText, when set, overrides the CLUSTER NODES text served in auto mode.
 	TopoText func() string
+	Writing  int32 // background writes of large replies still in progress
 	// Boot: CLUSTER NODES is auto-answered even when cfg.ScriptTopo (used during bootstrap)
 	Boot bool
 	free bool
@@ -689,6 +691,15 @@ func (cl *Cluster) answerLocked(nc *NodeConn, kind, cls, to string, raw []byte) 
 	}
 	// log before write: the answer happens-before anything the proxy does with it
 	cl.log.Add(ev)
+	if len(b) > 60000 {
+		// more than the socket buffers may take while the proxy is parked: write in the background
+		atomic.AddInt32(&cl.Writing, 1)
+		go func() {
+			nc.c.Write(b)
+			atomic.AddInt32(&cl.Writing, -1)
+		}()
+		return
+	}
 	nc.c.Write(b)
 	cl.autoLocked(nc, false)
 }
